@@ -192,6 +192,8 @@ type readSeekCloser struct {
 	*strings.Reader
 	closed int
 	strict bool
+	seeks  int
+	failAt int // >0: the failAt-th Seek fails (a body that can be sent once: a pipe, a file removed meanwhile)
 }
 
 func (r *readSeekCloser) Close() error { r.closed++; return nil }
@@ -205,6 +207,10 @@ func (r *readSeekCloser) Read(p []byte) (int, error) {
 }
 
 func (r *readSeekCloser) Seek(off int64, whence int) (int64, error) {
+	r.seeks++
+	if r.failAt > 0 && r.seeks >= r.failAt {
+		return 0, errors.New("seek: illegal seek")
+	}
 	if r.strict && r.closed > 0 {
 		return 0, errors.New("seek: file already closed")
 	}
@@ -299,6 +305,8 @@ func (c httpCase) run() func() {
 			direct = &readSeekCloser{Reader: strings.NewReader(c.body)}
 		case "seeker-file":
 			direct = &readSeekCloser{Reader: strings.NewReader(c.body), strict: true}
+		case "seeker-once": // rewinds for the first attempt only
+			direct = &readSeekCloser{Reader: strings.NewReader(c.body), failAt: 2}
 		}
 		ctx := context.Background()
 		var cancelCaller context.CancelFunc
@@ -413,6 +421,14 @@ func (c httpCase) mergedContext() bool {
 	return reqNonBg && execNonBg
 }
 
+// netTimeoutError is what net/http reports for its own timeouts (Client.Timeout, ResponseHeaderTimeout).
+type netTimeoutError struct{}
+
+func (netTimeoutError) Error() string   { return "net/http: timeout awaiting response headers" }
+func (netTimeoutError) Timeout() bool   { return true }
+func (netTimeoutError) Temporary() bool { return true }
+func (netTimeoutError) Is(t error) bool { return t == context.DeadlineExceeded }
+
 // shortBody renders a request body for a message: whole if short, else length and ends.
 func shortBody(b []byte) string {
 	if len(b) <= 40 {
@@ -514,7 +530,7 @@ func (c httpCase) check(ft *fakeTransport, origHeader http.Header, resp *http.Re
 			if c.mergedContext() {
 				class = "attempt ran under a merged context: non-background request context and non-background execution context"
 			}
-			return fmt.Sprintf("reading the returned response body gave %q, %v; the server sent %q [%s]", got, readErr, wantBody, class)
+			return fmt.Sprintf("reading the returned response body gave %s, %v; the server sent %s [%s]", shortBody(got), readErr, shortBody([]byte(wantBody)), class)
 		}
 	}
 	return ""
@@ -560,6 +576,10 @@ func c18Cases(tier string) []httpCase {
 		{{Status: 503, RetryAfter: "1", Think: 1500 * time.Millisecond}, {Status: 429, RetryAfter: "2", Think: 300 * time.Millisecond, Body: "x", Stream: 5 * time.Millisecond}, ok},
 		{{Status: 501, Body: "ni"}},
 		{{Status: 500}, {Status: 502}, {Status: 504, Body: "last"}},
+		// error responses with bodies of several KiB, the last of which is what the caller finally gets
+		{{Status: 503, Body: bigBody[:5000]}, {Status: 500, Body: bigBody[:9000]}, {Status: 429, Body: bigBody[:6000]}},
+		// a transport-level timeout (net/http's own: it matches context.DeadlineExceeded) is an error like any other: retried
+		{{Err: netTimeoutError{}}, ok},
 		{{Err: errors.New("connection reset")}, ok},
 		{{Err: &url.Error{Op: "Post", URL: "u", Err: errors.New("x509: certificate is not trusted")}}},
 		{{Err: errors.New("unsupported protocol scheme \"foo\"")}},
